@@ -701,6 +701,16 @@ func TestVerifC19StateMachine(t *testing.T) {
 		npool := rapid.IntRange(1, 3).Draw(rt, "npool")
 		var pool []*vf19Ident
 		for i := 0; i < npool; i++ {
+			if i > 0 && rapid.IntRange(0, 2).Draw(rt, fmt.Sprintf("ident%d_variant", i)) == 0 {
+				// the same browser with a different set of session extensions (Roller-style fingerprint mixing)
+				mask := rapid.IntRange(1, 7).Draw(rt, fmt.Sprintf("ident%d_vdrop", i))
+				id, err := vf19NewIdent(pool[0].Base, true, map[string]bool{"ems": mask&1 != 0, "ticket": mask&2 != 0, "psk": mask&4 != 0})
+				if err != nil {
+					rt.Fatalf("variant: %v", err)
+				}
+				pool = append(pool, id)
+				continue
+			}
 			pool = append(pool, vf19GenIdent(rt, fmt.Sprintf("ident%d", i)))
 		}
 		prev := map[string]*vf19Conn{}
@@ -715,10 +725,14 @@ func TestVerifC19StateMachine(t *testing.T) {
 				name := drawName(rt)
 				var c vf19Conn
 				mode := rapid.IntRange(0, 9).Draw(rt, "mode")
-				if p := prev[name]; p != nil && mode < 5 {
+				if p := prev[name]; p != nil && mode < 4 {
 					c = *p // same identity, name and server configuration
 					c.OmitPSK = rapid.IntRange(0, 9).Draw(rt, "omit") != 0
-				} else if p != nil && mode < 7 {
+				} else if p != nil && mode < 6 && len(pool) > 1 {
+					c = *p // same name and server configuration, another identity sharing the cache
+					c.Ident = pool[rapid.IntRange(0, len(pool)-1).Draw(rt, "ident")]
+					c.OmitPSK = true
+				} else if p != nil && mode < 8 {
 					c = *p // same identity, one server parameter changed
 					if rapid.Bool().Draw(rt, "flipvers") {
 						if c.SrvMax == VersionTLS13 {
